@@ -9,7 +9,22 @@ nothing is ever stored; destroy leaves no handles, no position records and no in
 
 Sequential model (stated, see ASSUMPTIONS): `RwLock<T>` / `Mutex<T>` / `AtomicU64` / `AtomicBool` are the value they hold and
 a function that mutates through them takes `&mut self` instead of `&self` (signature substitution, logged per function) -
-Verus cannot state a postcondition about state behind `&self`.  Interleavings of concurrent requests are not covered."""
+Verus cannot state a postcondition about state behind `&self`.  Interleavings of concurrent requests are not covered.
+
+ASSUMPTIONS (each is visible in the generated file and in the mechanical assumption scan):
+  A1 sequential model of RwLock / Mutex / AtomicU64 / AtomicU32 / AtomicBool (above); locks are never poisoned.
+  A2 BTreeMap = external type with a Map view (model of unit `inodes`: get/remove/insert/clear) + `new` + the entry API
+     (`entry`, `OccupiedEntry::{get, remove}`: an entry is the borrowed map plus the key); std HashMap through vstd.
+  A3 Option::filter / Option::is_some_and by assume_specification; Arc clone denotes the same value (axiom_arc_cloned).
+  A4 no_wrap: fewer than 2^64-1 handles are allocated (`requires next_handle.v < u64::MAX` on do_open/open/opendir/create).
+  A5 contract-only (bodies are syscall chains or contain `unsafe`): open_inode (returns a descriptor of `inode`), import
+     (touches only the inode map, inserts only ROOT_ID), do_lookup (+1 reference on the returned inode, handle state untouched),
+     forget (gives references back, saturating, root exempt), last_cookie_in_buf, create_file_excl, set_creds, drop_cap_fsetid,
+     validate_path_component, get_writeback_open_flags, sync_fd, stat_fd, InodeHandle::stat, InodeData::get_file.
+  A6 cache_cookie is only called for a handle that do_readdir (not extracted: `unsafe`) has just resolved (its `requires`).
+  A7 HandleData::get_file / borrow_fd are capability-guarded externals ([fd]): which descriptor an operation may touch.
+  A8 rule R24 (explicit `else { }`) - works around a Verus mis-resolution, see findings/verus_elseless_if_unsound.rs.
+The set of WRITERS of the table / position records / counter is closed syntactically (writers_scan below, [C15.writers.closed])."""
 import os
 import re
 
